@@ -82,6 +82,8 @@ func Build(thorough bool) []Scenario {
 	b1 := w.AddBlock(0, "b1", labnet.BlockOpt{Tag: 1})
 	b2 := w.AddBlock(b1, "b2", labnet.BlockOpt{Tag: 1})
 	b3 := w.AddBlock(b2, "b3", labnet.BlockOpt{Tag: 1})
+	b4 := w.AddBlock(b3, "b4", labnet.BlockOpt{Tag: 1})
+	b5 := w.AddBlock(b4, "b5", labnet.BlockOpt{Tag: 1})
 	W = w
 	B := func(i int) Call { return blockCall(w, i) }
 	V := func(v, s, t int) Call { return voteCall(w, v, s, t) }
@@ -91,6 +93,12 @@ func Build(thorough bool) []Scenario {
 		{"S1 best-changing vote alone", empty, forkSetup, [][]Call{{V(2, 0, b2)}}},
 		{"S2 block || best-changing vote || reads", empty, forkSetup, [][]Call{{B(a4)}, {V(2, 0, b2)}, {readsCall(w, a2)}}},
 		{"S4 cached votes replayed at epoch block || vote || block", empty, []Call{B(a1), V(0, 0, a2), V(1, 0, a2)}, [][]Call{{B(a2), B(a3)}, {V(2, 0, a2)}, {B(b1)}}},
+		// votes for b2 parked before b2 is known; b4 and b5 wait as orphans; b3 starts the epoch after b2 (the parked
+		// votes are replayed and ask the chain to move to branch b) and connects the orphan run, whose b5 starts the
+		// NEXT epoch while the first replay may still be waiting for the chain
+		{"S7 parked best-changing votes replayed || orphan run crossing the next epoch boundary || reads", empty,
+			[]Call{B(a1), B(a2), B(a3), B(a4), V(0, 0, b2), V(1, 0, b2), V(2, 0, b2), B(b1), B(b2), B(b4), B(b5)},
+			[][]Call{{B(b3)}, {readsCall(w, b2)}}},
 	}
 	// S3 needs spendable outputs: prelude built once with real goroutines (pass-through mode)
 	var err error
